@@ -27,16 +27,21 @@ async fn restart(node: &ReplicatedShardedState, ckpt: &Option<HashMap<String, Re
     let store = InMemoryObjectStore::new();
     let mm = ManifestManager::new(store.clone(), PREFIX);
     let mut manifest = Manifest::new(1);
-    if !seg.is_empty() {
+    // what was streamed lies in one to three segments, cut in persist order (a flush every few writes); the manifest records
+    // each segment's own stamp range - the shards' clocks are independent, so a later segment may well start lower
+    let nseg = if seg.len() >= 4 { 1 + seg.len() % 3 } else if seg.len() >= 2 { 1 + seg.len() % 2 } else { 1 };
+    let per = (seg.len() + nseg - 1) / nseg.max(1);
+    for (ci, chunk) in seg.chunks(per.max(1)).enumerate() {
         let mut w = SegmentWriter::new(Compression::None);
-        for d in seg {
+        for d in chunk {
             w.write_delta(d).map_err(|e| format!("{e:?}"))?;
         }
         let data = w.finish().map_err(|e| format!("{e:?}"))?;
-        let key = format!("{}/segments/segment-{:08}.seg", PREFIX, 5);
+        let id = 5 + ci as u64;
+        let key = format!("{}/segments/segment-{:08}.seg", PREFIX, id);
         store.put(&key, &data).await.map_err(|e| format!("{e}"))?;
-        let ts: Vec<u64> = seg.iter().map(|d| d.value.timestamp.time).collect();
-        manifest.add_segment(SegmentInfo { id: 5, key, record_count: seg.len() as u32, size_bytes: data.len() as u64,
+        let ts: Vec<u64> = chunk.iter().map(|d| d.value.timestamp.time).collect();
+        manifest.add_segment(SegmentInfo { id, key, record_count: chunk.len() as u32, size_bytes: data.len() as u64,
                                            min_timestamp: *ts.iter().min().unwrap(), max_timestamp: *ts.iter().max().unwrap() });
     }
     if let Some(state) = ckpt {
